@@ -31,14 +31,25 @@ func GetLabelsValues(obj *metav1.ObjectMeta) ([]string, []string) {
 
 // BuildInfoLabels build the lists of label keys and values from the ObjectMeta Labels.
 func BuildInfoLabels(obj *metav1.ObjectMeta) ([]string, []string) {
-	labelKeys := []string{}
+	keys := make([]string, 0, len(obj.Labels))
 	for key := range obj.Labels {
-		labelKeys = append(labelKeys, sanitizeLabelName(key))
+		keys = append(keys, key)
 	}
-	sort.Strings(labelKeys)
+	// Order by the sanitized name (the original key breaks ties between keys that collide once sanitized), and
+	// look every value up with the original key.
+	sort.Slice(keys, func(i, j int) bool {
+		si, sj := sanitizeLabelName(keys[i]), sanitizeLabelName(keys[j])
+		if si != sj {
+			return si < sj
+		}
 
-	labelValues := make([]string, len(obj.Labels))
-	for i, key := range labelKeys {
+		return keys[i] < keys[j]
+	})
+
+	labelKeys := make([]string, len(keys))
+	labelValues := make([]string, len(keys))
+	for i, key := range keys {
+		labelKeys[i] = sanitizeLabelName(key)
 		labelValues[i] = obj.Labels[key]
 	}
 
